@@ -32,6 +32,24 @@ CLAIMS['C19'] = {
     'note': TB,
     'technique': 'Lean 4 theorem over translator-regenerated Count + hand model of request(); unit differential through facet-json',
 }
+CLAIMS['C13'] = {
+    'text': ('Theorems get_class_admissible / get_class_admissible_conc: for every policy function, configuration, memory '
+             'contents and request, a get that returns ok (frame, cls) has cls = requested or the policy rates (requested, cls) '
+             'Match/Steal; proved by structural induction over the get program with adversarial memory (every value observed by '
+             'an atomic access universally quantified), hence for sequential runs and for every interleaving at single-access '
+             'granularity. Model tied to llfree.rs/trees.rs/local.rs by byte-level sequential differential runs.'),
+    'note': TB,
+    'technique': 'Lean 4 structural induction with adversarial memory (Always predicate, sound for runSolo and single-access thread steps) + sequential differential',
+}
+CLAIMS['C08'] = {
+    'text': ('Theorems get_invalid_rejected / put_invalid_rejected: for every configuration and memory, a call whose order exceeds '
+             'the tree order, whose block extends past the managed range, whose frame is misaligned or whose class (0..7) is not '
+             'configured returns Argument with the whole memory unchanged (check precedes every access); zone_*_below_offset; '
+             'new_rejects_small/misaligned/overlap for MetaData::valid with overlap_iff (the source predicate is interval '
+             'intersection for non-empty ranges). Differential: malformed call stream + construction over carved buffers.'),
+    'note': TB,
+    'technique': 'Lean 4 theorems by symbolic execution of check/get/put in the sequential semantics + differential (malformed stream, buffer layouts)',
+}
 
 _PENDING = 'claimed by DESIGN.md; theorem module not yet landed in this revision (work in progress, see DESIGN.md §10 staging)'
 NOT_APPLICABLE = {
